@@ -169,7 +169,7 @@ func (lf *Life) Step(d *Disk, ev *scen.CallEvent, nodeExec int) (*Expect, error)
 	ex.CT = FormatCall(c, cfg)
 	var upd *bool
 	if cfg != nil {
-		upd = cfg.Update
+		upd = cfg.EffUpdate()
 	}
 	switch ex.CT.Status {
 	case StInvalid:
